@@ -1,6 +1,98 @@
-(* Props/C03.v — placeholder until the proofs land. *)
+(* Props/C03.v — property C03: REQUIRED means required, and the reported
+   handshake outcome is what happened — whatever the peer sends.
+
+   [run] is either role of a full (non-resumed) handshake: the real endpoint's
+   configuration together with an ARBITRARY peer script (Model/Handshake.v:
+   every field of the peer's security ad, every answer in the bitmask exchange,
+   its behaviour inside CLAIMTOBE, its key material, how and what it sends as
+   post-auth ad).  [g_ran] and [g_encrypted]/[g_key] are the ghost record of what
+   really happened on the connection; the correspondence run compares them with
+   what the scripted peer saw and with the stream's real state.
+
+   All theorems quantify over every configuration (any levels, any method and
+   cipher lists), both roles and every peer script.  Proofs are in Proofs/C03.v. *)
 From Coq Require Import List NArith ZArith Bool.
-From Cedar Require Import Model.Negotiate Model.Handshake.
-Theorem C03_placeholder : key_valid KMissing = false.
-Proof. reflexivity. Qed.
-Print Assumptions C03_placeholder.
+From Cedar Require Import Model.Negotiate Model.Handshake Proofs.C03.
+Import ListNotations.
+
+(* success + own Authentication REQUIRED  =>  a method from the endpoint's OWN
+   list ran to successful completion on the wire *)
+Theorem C03_auth_required : forall (x : run) (r : result),
+  run_out x = Ok r -> c_auth (run_cfg x) = Rq ->
+  exists m, In (m, true) (g_ran r) /\ In m (c_meths (run_cfg x)).
+Proof. exact auth_required. Qed.
+Print Assumptions C03_auth_required.
+
+(* success + own Encryption or Integrity REQUIRED  =>  the stream is really
+   encrypting, with a key derived by ECDH from a usable key sent by the peer *)
+Theorem C03_enc_required : forall (x : run) (r : result),
+  run_out x = Ok r -> (c_enc (run_cfg x) = Rq \/ c_integ (run_cfg x) = Rq) ->
+  g_encrypted r = true /\ exists k, g_key r = Some (KDerived k) /\ key_valid k = true.
+Proof. exact enc_required. Qed.
+Print Assumptions C03_enc_required.
+
+(* the reported Encryption flag always equals the stream's real state *)
+Theorem C03_report_enc : forall (x : run) (r : result),
+  run_out x = Ok r ->
+  r_enc r = g_encrypted r /\ (g_encrypted r = true <-> g_key r <> None).
+Proof. exact report_enc. Qed.
+Print Assumptions C03_report_enc.
+
+(* the reported Authentication flag and method are exactly what ran on the wire:
+   the flag is set iff some exchange succeeded, and then NegotiatedAuth is that
+   exchange's method, it is the only successful one, and it is own-listed *)
+Theorem C03_report_auth : forall (x : run) (r : result),
+  run_out x = Ok r ->
+  (r_auth r = true <-> exists m, In (m, true) (g_ran r)) /\
+  (r_auth r = true ->
+     In (r_meth r, true) (g_ran r) /\ In (r_meth r) (c_meths (run_cfg x)) /\
+     forall m, In (m, true) (g_ran r) -> m = r_meth r).
+Proof. exact report_auth. Qed.
+Print Assumptions C03_report_auth.
+
+(* ---- non-vacuity ----------------------------------------------------------------- *)
+
+(* an honest-looking server: the client with everything REQUIRED succeeds,
+   authenticated by CLAIMTOBE after one rejected attempt is impossible (the bit is
+   withdrawn), so here directly; encrypted with the derived key *)
+Example C03_ex_client_ok :
+  run_out (AsClient (mkCfg Rq Rq Rq [mFS; mCTB] [cAES] true)
+             (mkS RNone SYes SYes [mCTB; mFS] [mCTB] [cAES] [cAES] KGood
+                  [mkReply 2 true true] PSealed RAuthorized))
+  = Ok (mkR true true mCTB [(mCTB, true)] true (Some (KDerived KGood))).
+Proof. vm_compute. reflexivity. Qed.
+
+(* the confirmed attack of the unfixed code: server answers NO, omits its key,
+   sends the post-auth ad in clear — now an error for a REQUIRED client ... *)
+Example C03_ex_attack_rejected :
+  run_out (AsClient (mkCfg Rq Rq Rq [mFS] [cAES] true)
+             (mkS RNone SNo SNo [mFS] [mFS] [cAES] [cAES] KMissing [] PClear RAuthorized))
+  = Err [].
+Proof. vm_compute. reflexivity. Qed.
+(* ... and an honest plaintext, unauthenticated session for an OPTIONAL client *)
+Example C03_ex_optional_plain :
+  run_out (AsClient (mkCfg Op Op Op [mFS] [cAES] true)
+             (mkS RNone SNo SNo [mFS] [mFS] [cAES] [cAES] KMissing [] PClear RAuthorized))
+  = Ok (mkR false false mFS [] false None).
+Proof. vm_compute. reflexivity. Qed.
+
+(* a server picking CLAIMTOBE although the client listed only FS is refused *)
+Example C03_ex_unoffered :
+  run_out (AsClient (mkCfg Pf Op Op [mFS] [cAES] true)
+             (mkS RNone SYes SYes [mFS] [mFS] [cAES] [cAES] KGood [mkReply 2 true true] PSealed RAuthorized))
+  = Err [].
+Proof. vm_compute. reflexivity. Qed.
+
+(* server role: REQUIRED/REQUIRED server, client fails one claim then succeeds *)
+Example C03_ex_server_ok :
+  run_out (AsServer (mkCfg Rq Rq Op [mCTB; mPW] [cAES] true)
+             (mkC true (SLvl Op) (SLvl Op) [mCTB; mPW] [cAES] KGood
+                  [mkM 514 ClaimFail; mkM 2 ClaimOk]))
+  = Ok (mkR true true mCTB [(mCTB, false); (mCTB, true)] true (Some (KDerived KGood))).
+Proof. vm_compute. reflexivity. Qed.
+(* server role: client omits its ECDH key against Encryption REQUIRED *)
+Example C03_ex_server_nokey :
+  run_out (AsServer (mkCfg Op Rq Op [mCTB] [cAES] true)
+             (mkC true (SLvl Op) (SLvl Op) [mCTB] [cAES] KMissing []))
+  = Err [].
+Proof. vm_compute. reflexivity. Qed.
